@@ -77,6 +77,24 @@ Example L_restore_theta :
   snd (t_apply_ops (tinit (Rect 0 4 0 2 B0 1 0)) [TRotateTo Bgen false (3 # 5) (4 # 5); TRestore]) = (3 # 5, 4 # 5).
 Proof. vm_compute. split; reflexivity. Qed.
 
+(* incremental rotation: rotate_by(2.214) twice on the L-shape (accumulated angle 4.43 > pi) is ONE rotate_to of the composed angle
+   (-7/25, -24/25); the angle wrapped modulo pi, (7/25, 24/25), is a different polygon (the seeded change C08-8) *)
+Example L_by_twice :
+  t_apply_ops (tinit (Poly Lshape)) [TRotateBy Bgen false (-3 # 5) (4 # 5); TRotateBy Bgen false (-3 # 5) (4 # 5)] =
+  t_apply_ops (tinit (Poly Lshape)) [TRotateTo Bgen false (-7 # 25) (-24 # 25)].
+Proof. vm_compute. reflexivity. Qed.
+Example L_by_twice_not_mod_pi :
+  fst (t_apply_ops (tinit (Poly Lshape)) [TRotateBy Bgen false (-3 # 5) (4 # 5); TRotateBy Bgen false (-3 # 5) (4 # 5)]) <>
+  fst (t_apply_ops (tinit (Poly Lshape)) [TRotateTo Bgen false (7 # 25) (24 # 25)]).
+Proof. vm_compute. discriminate. Qed.
+Example by_hyps : rotatable (Poly Lshape) /\ on_unit (-3 # 5) (4 # 5) /\ (forall vs, Rect 0 4 0 2 B0 1 0 <> Poly vs) /\ rotatable (Rect 0 4 0 2 B0 1 0).
+Proof. repeat split; try exact I; try reflexivity. discriminate. Qed.
+(* rectangle: three increments of pi/2 + 2.214 + 2.214 collapse to one rotate_by of the total *)
+Example rect_by_collapse :
+  t_apply_ops (tinit (Rect 0 4 0 2 B0 1 0)) (by_ops [(B90, false, (0, 1)); (Bgen, false, (-3 # 5, 4 # 5)); (Bgen, false, (-3 # 5, 4 # 5))]) =
+  (Rect 0 4 0 2 Bgen (24 # 25) (-7 # 25), (24 # 25, -7 # 25)).
+Proof. vm_compute. reflexivity. Qed.
+
 (* verdicts: inside, outside, and within eps of the boundary *)
 Example verdicts :
   map (classify (1 # 1024) (Rect 0 4 0 2 Bgen (3 # 5) (4 # 5))) [(2, 1); (4, 1); (4, 2); (4 + (1 # 4096), 2)] = [VIn; VOut; VNear; VNear].
